@@ -490,8 +490,7 @@ Conversion<Unit::SpecificHeatCapacity, Unit::SpecificHeatCapacity::InchPoundPerS
 }
 
 template <typename NumericType>
-inline const std::map<Unit::SpecificHeatCapacity,
-                      std::function<void(NumericType* values, const std::size_t size)>>
+inline const ConversionTable<Unit::SpecificHeatCapacity, NumericType>
     MapOfConversionsFromStandard<Unit::SpecificHeatCapacity, NumericType>{
       {Unit::SpecificHeatCapacity::JoulePerKilogramPerKelvin,
        Conversions<Unit::SpecificHeatCapacity,
@@ -512,8 +511,7 @@ inline const std::map<Unit::SpecificHeatCapacity,
 };
 
 template <typename NumericType>
-inline const std::map<Unit::SpecificHeatCapacity,
-                      std::function<void(NumericType* const values, const std::size_t size)>>
+inline const ConversionTable<Unit::SpecificHeatCapacity, NumericType>
     MapOfConversionsToStandard<Unit::SpecificHeatCapacity, NumericType>{
       {Unit::SpecificHeatCapacity::JoulePerKilogramPerKelvin,
        Conversions<Unit::SpecificHeatCapacity,
